@@ -528,6 +528,12 @@ def _reinit_opt(ck: Check, repo: Repo) -> None:
     for o in sub2.obs:
         if o.rule == "C02.2" and ("networks of the new optimizer" in o.what or "stored under the optimizer's registered attribute name" in o.what):
             ck.obs.append(_replace(o, rule="C06.5"))
+    # ... and what is stored is the NEW wrapper: a local that is only ever bound to an OptimizerWrapper(...) construction of this function
+    sets = [c for c in calls_in(fn.node, nested=True) if call_name(c) == "setattr" and len(c.args) == 3 and dotted(c.args[0]) == "individual"]
+    new_opt = {t.id for a in ast.walk(fn.node) if isinstance(a, ast.Assign) and any(a.value is c for c in ows) for t in a.targets if isinstance(t, ast.Name)}
+    okv = bool(sets) and all(isinstance(c.args[2], ast.Name) and c.args[2].id in new_opt and _only_assigned_from(fn.node, c.args[2].id, ows) for c in sets)
+    ck.ob("C06.5", fn, sets[0] if sets else fn.node, okv, "the object stored on the individual is the newly constructed optimizer wrapper",
+          construct="reinit_opt: value stored by setattr")
     # all optimizers when none is given
     # without a selection every registered optimizer is re-created: some loop runs over (a value that can be) `<individual>.registry.optimizers`, unfiltered
     fcfg = CFG(fn.node)
